@@ -6,6 +6,8 @@ use vstd::prelude::*;
 
 verus! {
 
+//@ include std_specs.inc
+
 // ---------------------------------------------------------------- specs (written from the statement)
 pub open spec fn is_digit(b: u8) -> bool { 48 <= b <= 57 }
 pub open spec fn all_digits(s: Seq<u8>) -> bool { forall|i: int| 0 <= i < s.len() ==> is_digit(#[trigger] s[i]) }
